@@ -8,6 +8,7 @@ import (
 	"encoding/binary"
 	"fmt"
 	"strings"
+	"sync"
 
 	txfile "github.com/elastic/go-txfile"
 	"github.com/elastic/go-txfile/pq"
@@ -51,6 +52,7 @@ type Session struct {
 	curLeft   int // unread bytes of it
 	writerErr bool
 
+	mu       sync.Mutex
 	Trace    bytes.Buffer
 	Step     int
 	Failures []Failure
@@ -65,16 +67,26 @@ func New(cfg Config) *Session {
 }
 
 func (s *Session) fail(prop, kind, format string, a ...interface{}) {
+	s.mu.Lock()
+	defer s.mu.Unlock()
 	s.Failures = append(s.Failures, Failure{Prop: prop, Kind: kind, Msg: fmt.Sprintf(format, a...), Step: s.Step})
 }
 
+// markState records the specification counters in the disk log (for the crash
+// enumeration of C06): every queue call is bracketed by two such marks.
+func (s *Session) markState() {
+	s.Disk.Mark(fmt.Sprintf("pq %d %d", s.Acked, s.Flushed))
+}
+
 func (s *Session) emit(format string, a ...interface{}) {
+	s.mu.Lock()
+	defer s.mu.Unlock()
 	s.Step++
 	fmt.Fprintf(&s.Trace, format, a...)
 	s.Trace.WriteByte('\n')
 }
 
-func (s *Session) mark(m string) { s.Markers[m]++ }
+func (s *Session) mark(m string) { s.mu.Lock(); s.Markers[m]++; s.mu.Unlock() }
 
 // EventByte is the content of byte j of event i.
 func EventByte(i, j int) byte {
@@ -103,10 +115,14 @@ func (s *Session) guard(op string, fn func() error) (res string) {
 			res = "panic"
 		}
 	}()
+	s.mu.Lock()
 	s.OpCount[op]++
+	s.mu.Unlock()
 	res = ErrKind(fn())
 	if res != "ok" {
+		s.mu.Lock()
 		s.ErrCount[op+"="+res]++
+		s.mu.Unlock()
 	}
 	return res
 }
@@ -180,6 +196,7 @@ func (s *Session) Open() string {
 		return nil
 	})
 	s.emit("open ps=%d max=%d wb=%d => %s", s.Cfg.PageSize, s.Cfg.MaxPages, s.Cfg.WriteBuffer, res)
+	s.markState()
 	return res
 }
 
@@ -204,6 +221,7 @@ func (s *Session) Close() string {
 	}
 	s.curBytes = 0
 	s.emit("close => %s %s", res, qres)
+	s.markState()
 	s.Q, s.W, s.R, s.F = nil, nil, nil, nil
 	// reopening resets the reader to the first un-ACKed event
 	s.Consumed = s.Acked
@@ -229,6 +247,7 @@ func (s *Session) WriteChunk(n int) string {
 		s.curBytes += n
 	}
 	s.afterProducer(before, finishedBefore, res, "write")
+	s.markState()
 	return res
 }
 
@@ -259,6 +278,7 @@ func (s *Session) Next() string {
 		s.curBytes = 0
 	}
 	s.afterProducer(before, s.Finished, res, "next")
+	s.markState()
 	return res
 }
 
@@ -274,6 +294,7 @@ func (s *Session) Flush() string {
 			s.fail("C05", "flush-incomplete", "Flush returned success but only %d of %d finished events are flushed", s.Flushed, s.Finished)
 		}
 	}
+	s.markState()
 	return res
 }
 
@@ -392,6 +413,7 @@ func (s *Session) ACK(n int) string {
 	} else if n <= s.Flushed-s.Acked && n > 0 {
 		s.fail("C12", "ack-failed", "ACK(%d) with %d pending events failed: %s", n, s.Flushed-s.Acked, res)
 	}
+	s.markState()
 	return res
 }
 
